@@ -158,7 +158,6 @@ class extract_visitor(NodeVisitor):
     def visit_Import(self, node):
         # type: (ast.Import) -> None
         loc = get_expr_end(node)
-        start = np(node)
         for a in node.names:
             qualified = False
             if a.asname:
@@ -170,17 +169,16 @@ class extract_visitor(NodeVisitor):
                 iname = name
                 self.top._imports.append(a.name)
 
-            declared_at = self.top.find_id_loc(name, start)
+            declared_at = self.top.find_id_loc(name, self.top.alias_start(node, a))
             self.flow.add_name(ImportedName(name, loc, declared_at, iname, None,
                                             qualified=qualified))
 
     def visit_ImportFrom(self, node):
         # type: (ast.ImportFrom) -> None
         loc = get_expr_end(node)
-        start = np(node)
         for a in node.names:
             name = a.asname or a.name
-            declared_at = self.top.find_id_loc(name, start)
+            declared_at = self.top.find_id_loc(name, self.top.alias_start(node, a))
             module = '.' * node.level + (node.module or '')
             if name == '*':
                 self.top._star_imports.append((loc, declared_at, module, self.flow))
